@@ -77,6 +77,11 @@ func (n *Node) String() string {
 	}
 	s := n.Type
 	switch n.Type {
+	case "http":
+		if n.Int&1 != 0 {
+			return fmt.Sprintf("http[client with have-cache](%s)", n.Kids[0])
+		}
+		return fmt.Sprintf("http(%s)", n.Kids[0])
 	case "diskpacked", "memcache", "proxycache":
 		s += fmt.Sprintf("[%d]", n.Int)
 	}
@@ -134,6 +139,11 @@ func (n *Node) caps() Caps {
 	case "memcache":
 		c.Persistent = false
 	case "verif", "localdisk", "diskpacked", "filesvfs":
+	case "http":
+		c = n.Kids[0].caps()
+		if n.Int&1 != 0 {
+			c.Remove = false // the client's have-cache assumes blobs are never removed
+		}
 	case "encrypt":
 		kc0, kc1 := n.Kids[0].caps(), n.Kids[1].caps()
 		c.Remove = false
@@ -246,6 +256,9 @@ func genNode(t *rapid.T, depth int, force string, noPreload bool) *Node {
 		n.Kids = []*Node{genPreloadLeaf(t), kid()}
 	case "namespace":
 		n.Kids = []*Node{kid()}
+	case "http":
+		n.Kids = []*Node{kid()}
+		n.Int = int64(rapid.IntRange(0, 1).Draw(t, "clientHaveCache"))
 	case "proxycache":
 		n.Kids = []*Node{{Type: "memcache", Int: rapid.SampledFrom([]int64{64, 4096, 1 << 30}).Draw(t, "cacheSize")}, kid()}
 		n.Int = rapid.SampledFrom([]int64{0, 64, 4096, 512 << 20}).Draw(t, "maxCacheBytes")
@@ -364,6 +377,9 @@ func kvName(n *Node, what string) map[string]any {
 }
 
 func (b *Built) create(ld *loader, n *Node) (blobserver.Storage, error) {
+	if n.Type == "http" {
+		return newHTTPStore(b.nodes[n.Kids[0]], n.Int&1 != 0)
+	}
 	p := func(i int) string { return n.Kids[i].prefix() }
 	var conf jsonconfig.Obj
 	switch n.Type {
